@@ -1,2 +1,3 @@
+@property
 def spec(self):
     return math.prod(self.__shape)
